@@ -23,7 +23,7 @@ BLOBS = ["", "AA==", "aGVsbG8=", "++++/v79/A=="]  # the last one uses both chara
 
 TIMES = ["10:20:30", "23:59:59.500000", "00:00:00+02:00"]
 _WARM = [
-    (Loose, {"id": 1, "at": TIMES[0], "meta": {"a": {"b": 1}}, "payload": {"x": [1]}, "rows": [{"k": 1}], "note": {"n": 1}}),
+    (Loose, {"id": 1, "at": TIMES[0], "meta": {"a": {"b": 1}}, "payload": {"x": [1]}, "rows": [{"k": 1}], "note": {"n": 1}, "slots": ["a", None], "counts": [1, None]}),
     (Person, {"firstName": "a", "mood": None, "user_name_2": "u", "home-address": {"street": "s"}, "status": "active", "level": 1, "attrs": {"k": 1}, "addresses": [{"street": "t"}], "grid": [[{"cell-id": "g", "zip-code": "z"}]]}),
     (Stamps, {"created": WHENS[0], "born": DAYS[0], "avatar": BLOBS[1], "blob": BLOBS[2], "score": 1.5, "active": True}),
     (Employee, {"id": 1, "boss": "b", "office": {"street": "s"}}),
@@ -286,6 +286,29 @@ def tw_loose_time(i: int, t: int) -> bool:
     post: _
     """
     U(S({"id": i, "at": TIMES[t]}, Loose))
+    return False
+
+
+def ob_loose_nullable_items(ints: bool, n: int, s: str, i: int, hole: int) -> bool:
+    """
+    pre: 1 <= n <= 3 and len(s) <= 2 and 0 <= hole <= 3
+    post: _
+    """
+    # `items: {nullable: true}`: a null element stays a null element (it is not coerced into the item type)
+    vals = [((i + k) if ints else (s + "x" * k)) for k in range(n)]
+    if hole < n:
+        vals[hole] = None
+    doc = {"id": 1, ("counts" if ints else "slots"): vals}
+    back = U(S(copy.deepcopy(doc), Loose))
+    return back.get("counts" if ints else "slots") == vals
+
+
+def tw_loose_nullable_items(ints: bool, n: int, s: str, i: int, hole: int) -> bool:
+    """
+    pre: 1 <= n <= 3 and len(s) <= 2 and 0 <= hole <= 3
+    post: _
+    """
+    U(S({"id": 1, "slots": [s, None]}, Loose))
     return False
 
 
